@@ -59,6 +59,14 @@ pub fn name_pools() -> Vec<(Vec<&'static str>, Vec<&'static str>)> {
         // an attribute and a child of one name next to a name that converts to <name>_attr without
         // being spelled that way
         (vec!["x", "xAttr", "x-attr", "X_ATTR", "x.attr", "foo", "fooAttr"], vec!["x", "foo", "xAttr"]),
+        // numerics that are not ASCII digits (superscripts, fractions: alphanumeric, not identifier characters)
+        (vec!["m\u{b2}", "m\u{b3}", "item\u{bd}b", "x\u{b9}", "m"], vec!["k\u{b2}", "k"]),
+        // a container named as the plural of its items, the item also elsewhere
+        (vec!["car", "locations", "location", "archive", "categories", "category", "boxes", "box"], vec!["id"]),
+        // <parent>_<keyword> spelled out next to the keyword itself
+        (vec!["order", "order_type", "type", "orderType", "order-type", "game", "game.match", "match"], vec!["type", "order_type", "orderType", "match"]),
+        // attribute keys that differ only by white space the XML tokenizer does not strip (NBSP, VT, FF)
+        (vec!["a", "b"], vec!["id", "id\u{a0}", "\u{a0}lang", "lang", "id\u{c}", "\u{b}id"]),
     ]
 }
 
@@ -373,6 +381,51 @@ pub fn run_docprop(ctx: &mut Ctx, p: DocProp) {
                     _ => vec![repeat_doc(n)],
                 };
             }
+            111 | 311 => {
+                // twelve spellings of one name: one PascalCase form, one snake_case identifier
+                kind = "fixed-many-spellings";
+                let (a, b) = *rng.pick(&[("order", "line"), ("unit", "price"), ("a", "b")]);
+                let up = |x: &str| x.to_uppercase();
+                let cap = |x: &str| {
+                    let mut c = x.chars();
+                    c.next().map(|f| f.to_uppercase().collect::<String>() + c.as_str()).unwrap_or_default()
+                };
+                let mut sp: Vec<String> = vec![];
+                for sep in ["_", "-", "."] {
+                    sp.push(format!("{}{}{}", a, sep, b));
+                    sp.push(format!("{}{}{}", cap(a), sep, cap(b)));
+                    sp.push(format!("{}{}{}", up(a), sep, up(b)));
+                }
+                sp.push(format!("{}{}", a, cap(b)));
+                sp.push(format!("{}{}", cap(a), cap(b)));
+                sp.push(format!("{}_{}", a, cap(b)));
+                sp.push(format!("{}__{}", a, b));
+                let mut seen = std::collections::HashSet::new();
+                sp.retain(|x| seen.insert(x.clone()));
+                let as_children = rng.chance(1, 2);
+                let mk = |names: &[String], with_attr: bool| -> Vec<Node> {
+                    let kids: Vec<Node> = names.iter().map(|n| Node::Elem { name: n.clone(), empty: true, attrs: if with_attr { vec!["k".to_string()] } else { vec![] }, kids: vec![] }).collect();
+                    vec![Node::Elem { name: "orders".to_string(), empty: false, attrs: if as_children { vec![] } else { names.to_vec() }, kids: if as_children { kids } else { vec![] } }]
+                };
+                docs = vec![mk(&sp, rng.chance(1, 2)), mk(&sp[..rng.range(1, sp.len())], true)];
+            }
+            71 | 271 => {
+                // an element with two dozen attributes; later occurrences bring a new one / lack one
+                kind = "fixed-many-attributes";
+                let n = *rng.pick(&[19usize, 20, 21, 24, 33]);
+                let attrs: Vec<String> = (0..n).map(|i| format!("a{}", i)).collect();
+                let row = |a: Vec<String>| Node::Elem { name: "row".to_string(), empty: true, attrs: a, kids: vec![] };
+                let mut more = attrs.clone();
+                more.push("note".to_string());
+                let mut fewer = attrs.clone();
+                fewer.remove(n / 2);
+                let wrap = |rows: Vec<Node>| vec![Node::Elem { name: "table".to_string(), empty: false, attrs: vec![], kids: rows }];
+                docs = match rng.below(3) {
+                    0 => vec![wrap(vec![row(attrs.clone()), row(more)]), wrap(vec![row(fewer)])],
+                    1 => vec![wrap(vec![row(attrs.clone())]), wrap(vec![row(more)])],
+                    _ => vec![wrap(vec![row(more), row(attrs.clone()), row(fewer)])],
+                };
+            }
             171 | 371 => {
                 kind = "fixed-same-name-chain";
                 let d = rng.range(18, 26);
@@ -483,7 +536,7 @@ pub fn run_docprop(ctx: &mut Ctx, p: DocProp) {
     ctx.meta.push(("evaluations", J::N(evaluations)));
     ctx.meta.push(("distinct_nontrivial", J::N(distinct.len() as i64)));
     ctx.meta.push(("rule", json::s(format!(
-        "documents as DOM trees serialised with random incidental detail: {}{} random sequences of 1-{} documents with a common root (32 fixed name pools and, for a third of the cases, a pool of random names incl. keywords, case/separator variants, prefixed, non-ASCII, concatenation traps; depth<=5, fan-out<=6); {}; non-trivial = at least 3 nodes, distinct by DOM sequence",
+        "documents as DOM trees serialised with random incidental detail: {}{} random sequences of 1-{} documents with a common root (36 fixed name pools and, for a third of the cases, a pool of random names incl. keywords, case/separator variants, prefixed, non-ASCII, concatenation traps; depth<=5, fan-out<=6); {}; non-trivial = at least 3 nodes, distinct by DOM sequence",
         exh_note, n_rand, p.max_docs, p.what))));
     ctx.meta.push(("histogram", hist.json()));
     ctx.meta.push(("samples", J::A(samples)));
@@ -528,6 +581,8 @@ fn rand_derive(rng: &mut Rng) -> String {
             "Serialize, Deserialize", "", "Debug, Clone", "Debug", "serde::Deserialize, PartialEq", "A(B), C", " ", " Debug", "Debug ", "\tClone", "  ", "Debug,Clone , ",
             // long lists (anything that wraps, truncates or reformats above a width)
             "Debug, {}", "{{}}", "{0}, {}", "%s, %d", "Debug, {name}", "\\n", "Debug)] #[cfg(", "serialize, Clone, debug",
+            // strings that look like something else: a whole attribute, an "extend the default" marker
+            "#[derive(Debug)]", "#[x]", "#[cfg(test)]", "+Debug", "+", "derive(Debug)", "[Debug]",
             "Debug, Clone, PartialEq, Eq, Hash, PartialOrd, Ord, Default, serde::Serialize, serde::Deserialize",
             "Debug, Clone, PartialEq, Eq, Hash, PartialOrd, Ord, Default, serde::Serialize, serde::Deserialize, schemars::JsonSchema, derive_more::Display, derive_more::From, derive_more::Into, derive_builder::Builder, validator::Validate, utoipa::ToSchema, ts_rs::TS, strum::EnumString, strum::Display,,  Copy",
         ]).to_string()
@@ -561,7 +616,7 @@ pub fn c04(ctx: &mut Ctx) {
     let mut evals = vec![ev("bytes", "ev_bytes", "corr"), ev("wf", "or_wf", "oracle"), ev("reflects", "or_reflects", "oracle"), ev("hyp", "in_hyp_names", "hyp")];
     // renderer-only property: the parser's internal state is not compared here (a harmless rewrite
     // of the parser must not break this check); `bytes` renders the implementation's own tree
-    run_docprop(ctx, DocProp { evals, opts: opts_presets, exhaustive: false, n_rand: (2500, 60000), pools: vec![3, 4, 5, 6, 7, 8, 9, 10, 11, 12, 14, 15, 16, 17, 18, 19, 20, 21, 23, 24, 28, 29, 30, 31, 31], tweak: no_tweak, extra: None, max_docs: 3, with_chars: true, what: "adversarial name pools only; both presets x both sort options" });
+    run_docprop(ctx, DocProp { evals, opts: opts_presets, exhaustive: false, n_rand: (2500, 60000), pools: vec![3, 4, 5, 6, 7, 8, 9, 10, 11, 12, 14, 15, 16, 17, 18, 19, 20, 21, 23, 24, 28, 29, 30, 31, 31, 33, 34, 34], tweak: no_tweak, extra: None, max_docs: 3, with_chars: true, what: "adversarial name pools only; both presets x both sort options" });
 }
 /// implementation-only: one element with `n` distinct children (far beyond what the model can
 /// evaluate per run); the fields and the struct definitions must follow the document (unsorted)
@@ -651,8 +706,69 @@ fn deep_order_check(ctx: &mut Ctx, depth: usize) {
     }
     ctx.meta.push(("x_deep_order_levels", J::N(depth as i64)));
 }
+/// implementation-only: a root with two children that each hold thousands of struct-producing
+/// elements: rendered several times, the renderings must coincide and list the structs in pre-order
+/// (anything that renders large subtrees apart and joins the parts must join them in order)
+pub fn two_big_subtrees_check(ctx: &mut Ctx, n: usize) {
+    let mut doc = String::from("<schema><catalog>");
+    for i in 0..n {
+        doc.push_str(&format!("<c{} k=\"1\"><p{} k=\"1\"/></c{}>", i, i, i));
+    }
+    doc.push_str("</catalog><index>");
+    for i in 0..n / 2 {
+        doc.push_str(&format!("<i{} k=\"1\"><q{} k=\"1\"/></i{}>", i, i, i));
+    }
+    doc.push_str("</index><tail k=\"1\"/></schema>");
+    let mut tab = ErrTab::default();
+    let res = run_impl_guarded(&[doc.into_bytes()], &RCfg::default(), &mut tab, 300);
+    let ImplResult::Tree(_, e) = &res else {
+        ctx.impl_failures.push(json::obj(vec![("check", json::s("two-big-subtrees")), ("what", json::s(format!("a document with two subtrees of {} / {} elements is not parsed: {}", 2 * n, n, res.class())))]));
+        return;
+    };
+    let mut expected: Vec<String> = vec!["schema".into(), "catalog".into()];
+    for i in 0..n {
+        expected.push(format!("c{}", i));
+        expected.push(format!("p{}", i));
+    }
+    expected.push("index".into());
+    for i in 0..n / 2 {
+        expected.push(format!("i{}", i));
+        expected.push(format!("q{}", i));
+    }
+    expected.push("tail".into());
+    let mut first: Option<String> = None;
+    for round in 0..3 {
+        let out = match render(e, &Opts::quick_xml()) {
+            Ok(o) => o,
+            Err(m) => {
+                ctx.impl_failures.push(json::obj(vec![("check", json::s("two-big-subtrees")), ("what", json::s(format!("rendering panics: {}", m)))]));
+                return;
+            }
+        };
+        let structs: Vec<String> = out.lines().filter(|l| l.starts_with("pub struct ")).map(|l| l[11..].split(' ').next().unwrap_or("").to_lowercase()).collect();
+        if structs != expected {
+            let at = structs.iter().zip(expected.iter()).position(|(a, b)| a != b).unwrap_or(structs.len().min(expected.len()));
+            ctx.impl_failures.push(json::obj(vec![
+                ("check", json::s("two-big-subtrees")),
+                ("what", json::s(format!("<schema><catalog>{} x <cI><pI/></cI></catalog><index>{} x <iI><qI/></iI></index><tail/></schema>: struct definitions are not in pre-order (rendering {}); first difference at index {}: got {:?}, expected {:?}", n, n / 2, round, at, structs.get(at), expected.get(at)))),
+                ("documents", J::A(vec![json::s(format!("<schema><catalog>({} children with one child each)</catalog><index>({} such)</index><tail k=\"1\"/></schema>", n, n / 2))])),
+            ]));
+            return;
+        }
+        match &first {
+            None => first = Some(out),
+            Some(f) if *f != out => {
+                ctx.impl_failures.push(json::obj(vec![("check", json::s("two-big-subtrees")), ("what", json::s(format!("rendering {} of the same tree differs from the first", round)))]));
+                return;
+            }
+            _ => {}
+        }
+    }
+    ctx.meta.push(("x_two_big_subtrees_structs", J::N(expected.len() as i64)));
+}
 pub fn c09(ctx: &mut Ctx) {
     giant_order_check(ctx, if ctx.thorough { 20011 } else { 10007 });
+    two_big_subtrees_check(ctx, if ctx.thorough { 9000 } else { 4500 });
     deep_order_check(ctx, if ctx.thorough { 3000 } else { 1500 });
     let mut evals = corr_core();
     evals.extend(vec![ev("exact", "or_exact", "oracle"), ev("reflects", "or_reflects", "oracle"), ev("only_order", "or_only_order", "oracle"), ev("hyp", "in_hyp_docs", "hyp")]);
@@ -1064,6 +1180,7 @@ pub fn render_proc(files: &[String]) {
     print!("{}", outs.join("\u{1}"));
 }
 pub fn c05(ctx: &mut Ctx) {
+    two_big_subtrees_check(ctx, if ctx.thorough { 9000 } else { 4500 });
     let evals = vec![ev("tree", "ev_tree", "corr"), ev("bytes", "ev_bytes", "corr")];
     fn tweak(g: &mut GenCfg, rng: &mut Rng) {
         // multi-demotion shapes: wide parents repeated with different subsets of children
